@@ -8,6 +8,7 @@ ones that fit the configured buffer" + the half-open relevance interval.
 
 from __future__ import annotations
 
+import math
 from collections import deque
 from datetime import timedelta
 from typing import Any
@@ -32,8 +33,9 @@ RULE = ("seeded (period, max_age in {1,1.5,3,10}, initial/max buffer lengths {1,
         "with an empty one or an excluded future/old sample")
 REQUIRED_BUCKETS = ["tick-nonempty", "tick-empty(None)", "sample-exactly-T", "sample-exactly-T-minus-age",
                     "future-sample-excluded", "old-sample-excluded", "none-or-nan-input", "zero-valued-input", "input-period-estimated",
-                    "buffer-resized", "buffer-evicted", "upsampling", "downsampling", "silence>max-age"]
-REQUIRED_COUNTERS = ["ticks_compared", "function_calls_observed"]
+                    "buffer-resized", "buffer-evicted", "upsampling", "downsampling", "silence>max-age",
+                    "default-resampling-function"]
+REQUIRED_COUNTERS = ["ticks_compared", "function_calls_observed", "input_period_estimates_checked"]
 ASSUMPTIONS = ["time-ordered inputs; virtual clock"]
 
 
@@ -44,7 +46,7 @@ def budget(tier: str) -> dict[str, Any]:
 
 
 def gen(rng: Any, tier: str, i: int) -> Any:
-    period = rng.choice([1.0, 2.0, 0.5])
+    period = rng.choice([1.0, 2.0, 0.5, 1.0, 0.1, 0.3])
     age = rng.choice([1.0, 1.5, 3.0, 10.0])
     init = rng.choice([1, 2, 16])
     maxlen = max(2, rng.choice([init, init + 1, 32]))
@@ -66,7 +68,7 @@ def gen(rng: Any, tier: str, i: int) -> Any:
         series.append({"add_at": 0.0, "events": ev, "ip": ip})
     return {"period": period, "align": 0.0, "start_offset": rng.choice([0.0, 0.3, 0.999999, period / 2, 17.25]),
             "max_age": age, "init_len": init, "max_len": maxlen, "ticks": ticks, "series": series, "lat": [],
-            "drain_periods": 2}
+            "drain_periods": 2, "fn": "default" if rng.random() < 0.2 else "recording"}
 
 
 def check(case: dict[str, Any], rec: Any) -> None:
@@ -92,6 +94,7 @@ def check(case: dict[str, Any], rec: Any) -> None:
         arr = r["arrivals"][i]
         model: deque[Any] = deque(maxlen=case["init_len"])
         ai = 0
+        seen_sp = False
         prev_cap = case["init_len"]
         for e in lst:
             T, tnow, cap, sp = e["ts"], e["t_recv"], e["cap"], e["sampling_period"]
@@ -115,6 +118,25 @@ def check(case: dict[str, Any], rec: Any) -> None:
                 prev_cap = cap
             if sp is not None:
                 rec.bucket("input-period-estimated")
+                sps = sp.total_seconds()
+                if not sps > 0:
+                    rec.violation("input-period-estimate-not-positive", {**w0, "buffer_model": len(model)})
+                    break
+                if not seen_sp:
+                    seen_sp = True
+                    # estimated once, as (tick - first valid sample's timestamp) / valid samples received so far
+                    if ai > 0 and not tie:
+                        est = (T - arr[0]["ts"]).total_seconds() / ai
+                        rec.count("input_period_estimates_checked")
+                        if abs(sps - est) > 2e-6:
+                            rec.violation("input-period-estimate-differs-from-elapsed-time/received-samples",
+                                          {**w0, "expected_seconds": est, "received": ai, "first_sample": str(arr[0]["ts"])})
+                if sp <= per:
+                    # down-sampling: the buffer must hold max_age resampling periods of data at the input rate
+                    need = min(case["max_len"], max(1, math.ceil(age * p / sps - 1e-9)))
+                    if cap < need:
+                        rec.violation("buffer-smaller-than-the-max-age-window-at-the-input-rate", {**w0, "needed": need})
+                        break
             P = max(per, sp) if sp is not None else per
             lo = T - P * age
             exp = [x for x in model if lo < x["ts"] <= T]
@@ -144,6 +166,18 @@ def check(case: dict[str, Any], rec: Any) -> None:
                 else:
                     rec.bucket("tick-empty(None)")
                     n_interesting += 1
+                continue
+            if case.get("fn") == "default":
+                # the library's default function: the emitted value is the mean of the reference selection
+                rec.bucket("default-resampling-function")
+                if not exp:
+                    rec.violation("value-emitted-although-no-relevant-sample", w)
+                    continue
+                rec.bucket("tick-nonempty")
+                n_nonempty += 1
+                mean = math.fsum(x["value"] for x in exp) / len(exp)
+                if abs(e["value"] - mean) > 1e-9 * max(1.0, abs(mean)):
+                    rec.violation("default-function-value-is-not-the-mean-of-the-reference-selection", {**w, "mean": mean})
                 continue
             nc = e["ncalls"]
             if not (1 <= nc <= len(calls)) or e["value"] != float(nc):
